@@ -380,6 +380,9 @@ impl Prop for ConnProp {
 
     fn gen(&self, seed: u64, tier: Tier) -> Value {
         let mut rng = Rng::fork(seed, &format!("conn-gen-{}", self.id));
+        if self.id == "C06" && rng.chance(1, 4) {
+            return crate::props::c06x::gen_clone(seed, &mut rng);
+        }
         let n = rng.range(2, 4) as usize;
         let ops = self.gen_ops(&mut rng, n, tier);
         let last = ops.iter().map(|o| o["at_ms"].as_u64().unwrap_or(0)).max().unwrap_or(0);
@@ -399,6 +402,19 @@ impl Prop for ConnProp {
         // which nodes lack probe b (unsupported-protocol substream failures)
         let lacking: Vec<u64> = (1..=n as u64).filter(|_| rng.chance(1, 5)).collect();
         let half_close = if rng.chance(1, 4) { *rng.pick(&[1u64, 2]) } else { 0 };
+        let inbound_hold = *rng.pick(&[50u64, 50, 50, 2_000, 12_000]);
+        let mut ops = ops;
+        let mut faults = faults;
+        if self.id == "C08" && rng.chance(1, 8) {
+            // a peer that stops answering (partition = stalled delivery) while one protocol opens
+            // more substreams than the multiplexer lets be unacknowledged at once
+            let (a, b) = (1u64, 2u64);
+            let t0 = 1_200 + rng.below(800);
+            ops.push(json!({"at_ms": 20, "op": "dial", "node": a, "to": b}));
+            faults.push(json!({"at_ms": t0, "kind": "partition", "a": a, "b": b, "heal_after_ms": *rng.pick(&[20_000u64, 40_000])}));
+            ops.push(json!({"at_ms": t0 + 50 + rng.below(200), "op": "open_burst", "node": a, "to": b, "proto": rng.below(2), "count": rng.range(200, 420)}));
+            ops.sort_by_key(|o| o["at_ms"].as_u64().unwrap_or(0));
+        }
         json!({
             "property": self.id,
             "seed": seed,
@@ -408,6 +424,7 @@ impl Prop for ConnProp {
             "node_knobs": knobs,
             "no_probe_b": lacking,
             "half_close": half_close,
+            "inbound_hold_ms": inbound_hold,
             "ops": ops,
             "faults": faults,
         })
@@ -436,6 +453,9 @@ impl Prop for ConnProp {
     fn run(&self, case: &Value, verbose: bool) -> RunOutput {
         if case["mode"] == "protocol_set" {
             return run_protocol_set(case, verbose);
+        }
+        if case["mode"] == "clone" {
+            return crate::props::c06x::run_clone(case, verbose);
         }
         let case = case.clone();
         let my_prefix = format!("{}:", self.id.to_lowercase());
@@ -474,7 +494,7 @@ impl Prop for ConnProp {
                         continue;
                     }
                     let (tx, rx) = unbounded_channel();
-                    b = b.with_user_protocol(Box::new(Probe { node: i, idx, name: ProtocolName::from(*name), seed, nodes_total: total, log: log.clone(), handle: handle.clone(), rx, inbound_hold_ms: 50, half_close: case["half_close"].as_u64().unwrap_or(0) }));
+                    b = b.with_user_protocol(Box::new(Probe { node: i, idx, name: ProtocolName::from(*name), seed, nodes_total: total, log: log.clone(), handle: handle.clone(), rx, inbound_hold_ms: case["inbound_hold_ms"].as_u64().unwrap_or(50), half_close: case["half_close"].as_u64().unwrap_or(0) }));
                     txs.push(Some(tx));
                 }
                 let mut l = match Litep2p::new(b.build()) {
@@ -552,6 +572,16 @@ impl Prop for ConnProp {
                                     let _ = tx.send(NodeCmd::AddAddr { peer: j, addr: full_addr(seed, j) });
                                 }
                             }
+                            "open_burst" => {
+                                let p = o["proto"].as_u64().unwrap_or(0) as usize % 2;
+                                let Some(Some(tx)) = probe_tx[i].get(p) else { continue };
+                                if exited.contains(&(i, p)) {
+                                    continue;
+                                }
+                                for _ in 0..o["count"].as_u64().unwrap_or(300).min(1000) {
+                                    let _ = tx.send(ProbeCmd::Open { peer: j.clamp(1, total), hold_ms: 0 });
+                                }
+                            }
                             "open" | "force_close" | "probe_exit" | "pdial" => {
                                 let p = o["proto"].as_u64().unwrap_or(0) as usize % 2;
                                 if o["op"] == "probe_exit" {
@@ -614,7 +644,7 @@ impl Prop for ConnProp {
                 let table = net.conn_table();
                 let known = known.lock().unwrap().clone();
                 let end_ns = vnow().as_nanos() as u64;
-                let ctx = Ctx { log: &log, dead: &dead, table: &table, known: &known, n, total, seed, end_ns, max_in, max_out, sub_open_ms: sub_open, t_final_ns: t_final * 1_000_000, any_net_fault: !faults.is_empty() };
+                let ctx = Ctx { log: &log, dead: &dead, table: &table, known: &known, n, total, seed, end_ns, max_in, max_out, sub_open_ms: sub_open, t_final_ns: t_final * 1_000_000, any_net_fault: !faults.is_empty(), no_probe_b: &no_probe_b };
                 let vs = ctx.check();
                 for (class, detail) in vs.iter() {
                     h.probe(&format!("oracle-hit:{}", class.split(':').next().unwrap_or("")));
@@ -649,6 +679,7 @@ struct Ctx<'a> {
     max_out: Option<u64>,
     sub_open_ms: u64,
     t_final_ns: u64,
+    no_probe_b: &'a BTreeSet<usize>,
     any_net_fault: bool,
 }
 
@@ -772,6 +803,35 @@ impl<'a> Ctx<'a> {
                     if !(closed_after || net_end || forced || too_late) {
                         v.push(("c08:open-never-answered".into(), format!("node {i} protocol {proto}: open_substream(n{peer}) -> {id} at {:.3}s got neither SubstreamOpened nor SubstreamOpenFailure although no connection to the peer ended", *t as f64 / 1e9)));
                     }
+                }
+            }
+        }
+
+        // ---------- C08: the protocols of one node agree on which peers are connected ----------
+        // every connection event is reported to all installed protocols in one go; a protocol that
+        // sees a peer come or go while its sibling, 2 s either way, does not has lost track of
+        // a connection
+        if !self.no_probe_b.contains(&i) && probe_exited.is_empty() {
+            let w = 2_000_000_000u64;
+            let limit = killed_at.unwrap_or(self.end_ns);
+            for r in &evs {
+                let (proto, peer, est) = match &r.k {
+                    K::PEstablished { proto, peer } => (*proto, *peer, true),
+                    K::PClosed { proto, peer } => (*proto, *peer, false),
+                    _ => continue,
+                };
+                if r.t + w > limit {
+                    continue;
+                }
+                let sibling = 1 - proto;
+                let matched = evs.iter().any(|q| q.t + w >= r.t && q.t <= r.t + w && match &q.k {
+                    K::PEstablished { proto: p2, peer: x } => est && *p2 == sibling && *x == peer,
+                    K::PClosed { proto: p2, peer: x } => !est && *p2 == sibling && *x == peer,
+                    _ => false,
+                });
+                if !matched {
+                    v.push(("c08:protocols-disagree-on-connection".into(), format!("node {i}: protocol {proto} was told Connection{} for peer n{peer} at {:.3}s, protocol {sibling} of the same node was told nothing of the kind within 2 s either way", if est { "Established" } else { "Closed" }, r.t as f64 / 1e9)));
+                    break;
                 }
             }
         }
